@@ -830,4 +830,7 @@ class ITerm2Image(GraphicsImage, metaclass=ITerm2ImageMeta):
             )
 
 
-_stdout_write = sys.stdout.write
+def _stdout_write(string: str) -> int:
+    # `sys.stdout` is looked up upon every call; it may have been replaced since this
+    # module was imported, and everything else is written to the current one.
+    return sys.stdout.write(string)
